@@ -98,6 +98,7 @@ def trace_lines(tr):
 
 
 def main():
+    os.makedirs('/var/tmp', exist_ok=True)
     args = sys.argv[1:]
     if args and args[0] == '--setup':
         t = time.time()
